@@ -231,10 +231,12 @@ namespace plan
         }
     };
 
-    inline PlanSpace genPlanSpace(vf::Src &s, bool allowCurves)
+    inline PlanSpace genPlanSpace(vf::Src &s, bool allowCurves, int forceKind = -1)
     {
         PlanSpace p;
         size_t k = s.weighted({6, 3, 2, 2, allowCurves ? 2 : 0, allowCurves ? 1 : 0});
+        if (forceKind >= 0)  // bespoke fixtures (C01B) pin the space family; the choice byte is still consumed
+            k = (size_t)forceKind;
         // exploration aid (never set by ./check): VF_FORCE_SPACE=Dubins|ReedsShepp pins the space family of a sweep
         if (const char *fs = std::getenv("VF_FORCE_SPACE"))
             k = std::string(fs) == "Dubins" ? (size_t)SP_DUBINS : std::string(fs) == "ReedsShepp" ? (size_t)SP_REEDSSHEPP : k;
@@ -490,13 +492,14 @@ namespace plan
         bool onlySampleableGoal = false;
         bool forceSolvable = false;  // generous free space between start and goal not guaranteed; only forbids abnormal scenarios
         bool singleStart = false;    // LBTRRT / LazyLBTRRT refuse several start states ("currently not supported")
+        int forceKind = -1;          // pin the space family (bespoke fixtures)
     };
 
     // Builds space information, environment, starts/goals and the problem definition.
     inline std::shared_ptr<Problem> genProblem(vf::Src &s, const ProblemOpts &o)
     {
         auto P = std::make_shared<Problem>();
-        P->ps = genPlanSpace(s, o.allowCurves);
+        P->ps = genPlanSpace(s, o.allowCurves, o.forceKind);
         PlanSpace &ps = P->ps;
         P->resolution = s.flag() ? 0.01 : s.logreal(0.004, 0.05);
         ps.space->setLongestValidSegmentFraction(P->resolution);
